@@ -11,7 +11,7 @@ TRUST = ("TLC 1.8 and the CommunityModules; the projection code that re-encodes 
 
 # id -> (technique, level text, level_note, design_ref)
 CLAIMED = {
- "C17": ("TLA+ R-spec PortRange (ExactCover) judged by TLC on recorded calls of the real expansion functions; exhaustive TLC check of the transcribed algorithms for W<=8",
+ "C17": ("TLA+ R-spec PortRange (ExactCover) judged by TLC on recorded calls of the real expansion functions and of the real parser of the textual port field; exhaustive TLC check of the transcribed algorithms for W<=8",
          "TLC validates every recorded call/return of asComplexTernaryMatches, asTrivialTernaryMatch and CreatePortRangeCartesianProduct against the "
          "reference predicates ExactCover / WildcardOnlyForFull (evaluated on the RETURNED rules, so any exact expansion passes); the transcribed algorithms are "
          "model-checked exhaustively for all ranges of 5-, 6- and 8-bit port spaces and the oracle itself is validated against the naive set definition. "
@@ -46,7 +46,7 @@ CLAIMED = {
          "rejected modification (one UP4 shard in three has writes failed by the switch) / creation / end markers disabled, and that each marker arrives after the held farLookup add was acknowledged.",
          "Both datapaths: on UP4 the markers are the packet-outs received by the harness' P4Runtime switch, 'after programming' = after the last Write RPC of the request was answered; on BESS ordering is observed by delaying the FAR programming by 25 ms. Markers due form a bag (several updated rules may have used the same tunnel). " + TRUST,
          "5 C14"),
- "C06": ("TLA+ IPPool (set-based R-level allocator; FIFO I-model refining it, complete graphs) + TraceC06: TLC validates every recorded call of the real IPPool, with linearisation search for concurrent histories",
+ "C06": ("TLA+ IPPool (set-based R-level allocator; FIFO I-model refining it, complete graphs) + TraceC06: TLC validates every recorded call of the real IPPool, with linearisation search for concurrent histories (also run under the Go race detector)",
          "Library level against the real pfcpiface.IPPool: (seq) every sequence of L calls over {alloc, free} x 3 sessions on a /30 pool - bounded-exhaustive at the implementation (L=5 quick, 7 thorough); "
          "(prefix) every prefix /30../16 driven to exhaustion and back and walked through its whole inventory; (conc) concurrent goroutines whose invocation/response order is stamped outside the pool, "
          "accepted iff TLC finds a linearisation of the set-based allocator that reproduces every result (sound for any locking scheme). Invariants: ResultLegalForSetAllocator (in range, sticky, refusal only "
@@ -60,7 +60,7 @@ CLAIMED = {
          "plus AddressInPoolAndExclusive on every address handed out (so a pool that leaks is also seen as an illegal refusal).",
          "Both datapaths: UP4 shards run the UP4 generator with the same snapshot invariants plus NoUp4Residue (when no session is live nothing but the interfaces entries is left in the switch, no meter cell configured); the UP4 identifier pools are judged by C15; heartbeat / time-out endings use short timers (60 ms / 1 s). " + TRUST,
          "5 C05"),
- "C07": ("TLA+ R-spec Pfcp (SeidLegal, TeidLegal, image of CHOOSE PDRs): TLC judges every establishment of the real agent under adversarial SEID-source outputs, TEID cursor wrap-around and concurrent bursts",
+ "C07": ("TLA+ R-spec Pfcp (SeidLegal, TeidLegal, image of CHOOSE PDRs): TLC judges every establishment of the real agent under adversarial SEID-source outputs, TEID cursor wrap-around and concurrent bursts; GEN: every prefix of the random source over {0, live, live, deleted, fresh} enumerated by TLC from SeidScript.tla (with the design-level check of the draw loop) and replayed",
          "The guarded hooks feed the per-association random source with adversarial sequences (immediate repeat, repeat of a deleted session's id, zero, 99 and 100 consecutive collisions) and position the TEID cursor "
          "around the 32-bit wrap and on values in use; bursts of concurrent CHOOSE establishments from 2-6 associations are sent at once. TLC checks on every accepted establishment SeidFreshPerAssociation "
          "(non-zero, not live in the association), TeidNonZeroAndUnique (against every TEID chosen and not yet released, across associations) and ReportedEqualsProgrammed (pdrLookup entries carry the reported SEID and TEIDs).",
@@ -93,28 +93,28 @@ CLAIMED = {
          "PfdTableReplacedOrKept and ProvisionedApplicationUsable (a well-formed establishment naming a provisioned application is not refused).",
          "The reading of the UE-side endpoint is the as-written one (an explicit prefix or 'any' on the UE side replaces the UE address match, DESIGN A.1). UP4 shards: inline filters and PFD-provisioned applications (one description per direction) become applications entries; Up4Image!AppsOK and TermsOK judge them (Up4ApplicationsMeanWhatTheySay). " + TRUST,
          "5 C08"),
- "C13": ("TLA+ Notifier (rate limiter, model-checked) + R-spec Pfcp/TraceE2E!ReportEv: TLC judges every Session Report Request the real agent sends for datapath reports placed inside / outside the interval",
+ "C13": ("TLA+ Notifier (rate limiter, model-checked) + R-spec Pfcp/TraceE2E!ReportEv: TLC judges every Session Report Request the real agent sends for datapath reports placed inside / outside the interval (single reports and bursts)",
          "The harness writes F-SEIDs to the BESS notify socket for notifying, non-notifying, deleted and unknown sessions of one association; the notification interval is set to 200 ms through the guarded hook "
          "(one thorough shard uses the real 20 s) and gaps are clearly inside (<= 0.5 x) or clearly outside (>= 1.5 x) it. TLC checks ReportForwardedWhenDue (first report never suppressed; forwarded again once the interval has passed), "
          "NoneForUnknownOrSilentSessions, AtMostOncePerInterval and ReportRequestShape (CP SEID in the header, fresh sequence number, Downlink Data Report naming a downlink PDR of the session). "
          "Notifier.tla (as coded) is model-checked for all report/tick sequences of 3 sessions, interval 3, 8 ticks.",
          "One association (the code documents multi-association routing as unimplemented); both datapaths (every third shard: digests with the UE address sent by the harness' P4Runtime switch); time stamps are the harness' clock with 0.5x / 1.5x margins. " + TRUST,
          "5 C13"),
- "C20": ("TLA+ R-spec RouteControl (kernel routes / resolved next hops -> required module graph) + TraceC20: TLC judges the module graph after every event of bounded-exhaustive kernel histories replayed into the real Python handlers",
+ "C20": ("TLA+ R-spec RouteControl (kernel routes / resolved next hops -> required module graph) + TraceC20: TLC judges the module graph after every event of bounded-exhaustive kernel histories replayed into the real Python handlers and after pairs of events delivered on two threads",
          "conf/route_control.py is loaded from /repo under stand-ins for pyroute2, pybess and scapy (the real BessController wrapper runs on a recording BESS class with bessd's EEXIST / ENOENT / EBUSY semantics). "
          "Every kernel-consistent history of RTM_NEWROUTE / RTM_DELROUTE / RTM_NEWNEIGH over 4 routes, 3 next hops and 2 managed interfaces up to depth 5 (quick) / 7 (thorough, 2.4 M events) and seeded longer histories "
          "are replayed into the real _netlink_route_handler / _netlink_neighbor_handler; after every event TLC checks InstalledIffKernelHasItAndResolved, OneGateOneModulePerNextHop, RewriteModuleExistsIffUsed and "
          "LiveNextHopsNeverShareAGate on the recorded module graph; a handler that raises is an event nothing consumes.",
          "Neighbour entries resolve once per history (no MAC change, no neighbour expiry); the ping thread and signal handlers are not exercised. " + TRUST,
          "5 C20"),
- "C12": ("TLA+ Retrans (loop as coded with an adversarial peer, model-checked) + R-spec Pfcp/TraceE2E (RetransEv, PostponeEv, AssocEv with the agent's isConnected): TLC judges what a scripted lossy peer observed of the real agent",
+ "C12": ("TLA+ Retrans (loop as coded with an adversarial peer, model-checked) + R-spec Pfcp/TraceE2E (RetransEv, PostponeEv, AssocEv with the agent's isConnected): TLC judges what a scripted lossy peer observed of the real agent (including a forced round in which the answer arrives between a time-out and the retransmission)",
          "A scripted peer answers the k-th transmission (k = 1..N+1) of agent-originated Heartbeat Requests and of UPF-initiated Association Setup Requests, none, late, twice, with wrong sequence numbers, without Cause or with a rejection, "
          "for N in 1..3 (1..5 thorough) and response time-outs 40-60 ms; it sends its own heartbeat at mid-interval; the BESS server - and in one shard per tier the P4Runtime switch of the UP4 plug-in - is stopped and restarted around association attempts while the agent's isConnected is read from the "
          "guarded snapshot immediately before each request; feature configurations are random. TLC checks AtMostOnePlusNTransmissions, SpacedByResponseTimeout, StopsOnResponseDeadOnlyWhenAllUnanswered (and the sessions' removal through "
          "C05_NoDatapathResidue at the lost event), PeerHeartbeatPostponesOwn, RecoveryTimeStampConstant, AssociationAcceptedIffConnected, FeaturesMatchConfiguration and HeartbeatAnsweredAnyTime.",
          "Timing with one-sided 20 % tolerances on the harness' clock (not exactness of the time-out); sampled loss patterns per run rather than all interleavings of late answers. " + TRUST,
          "5 C12"),
- "C10": ("TLA+ Lifecycle (goroutines, channels, sync.Once of node / association life-cycle as coded; complete interleaving graphs, liveness) + forced and randomised schedules on the real agent judged by R-spec TraceE2E!StopEv",
+ "C10": ("TLA+ Lifecycle (goroutines, channels, sync.Once of node / association life-cycle as coded; complete interleaving graphs, liveness) + forced and randomised schedules on the real agent judged by R-spec TraceE2E!StopEv; GEN: the 158 teardown signatures (who calls Shutdown at which step of the running teardown) TLC reads off the model (LifeScript.tla) are forced on the agent through blocking gates",
          "Design level: Lifecycle.tla models every interleaving point of conn Serve / reader / heartbeat monitor / Shutdown sub-steps / node Serve with Go channel semantics; TLC checks NoPanic, DeletedAtMostOnce, NoDeleteAgainstClosedDatapath, "
          "StoppedClean on the complete graphs of 1 and 2 associations (2.8 M states) and StopTerminates under fairness. Implementation: (a) deterministic forced schedules through the blocking scheduling gates (a second Shutdown provoked "
          "after the first completed: heartbeat-dead vs stop, release vs stop, node held before exit; and forced overlaps: a release, a heartbeat failure or the peer's heartbeats while a teardown is held before its first session); (b) a seeded random scheduler that arms the gate at every scheduling point, releases parked goroutines one at a time and stalls one class "
